@@ -19,12 +19,13 @@ reactor runs, at the end of every iteration, and after every operation
 from twisted.internet.base import ReactorBase
 
 from props._timers import TimerScenario, EIGHTH, freeze_heap
+from detsim import kernel as K, reactors as R
 
 ID = "C08"
 ENGINE = "clock"
 LEVEL = "exploration"
 TECHNIQUE = "deterministic simulation: seeded timer operations and clock advances on a real ReactorBase vs reference timer model"
-QUICK_RUNS = 20000
+QUICK_RUNS = 14000
 BATCH = 100
 RUN_WALL_LIMIT_S = 60   # a run takes milliseconds; the margin is for descheduling on a loaded host
 COMPONENTS = {"real": ["twisted.internet.base.ReactorBase.callLater/_insertNewDelayedCalls/_moveCallLaterSooner/timeout/runUntilCurrent/getDelayedCalls",
@@ -179,8 +180,138 @@ class Scenario(TimerScenario):
         sim.nontrivial = c["ran"] >= 3 and c["cancel"] >= 1 and c["resched"] >= 1
 
 
+class RealLoopScenario(Scenario):
+    """Second configuration: the REAL select / poll / epoll / asyncio reactor (timed-call code of ReactorBase plus, for
+    asyncio, AsyncioSelectorReactor.callLater/_reschedule/_onTimer/_moveCallLaterSooner and asyncio's own timer heap)
+    over the fake kernel's pollers.  One "iteration" is one real pass of the main loop; the simulated sleep is exactly
+    what the reactor asked its poller for (or, by tape, an early wake-up or an oversleep), so `timeout-bound` is checked
+    on the value that really reaches select/poll/epoll/selector."""
+
+    def __init__(self, sim, kind):
+        TimerScenario.__init__(self, sim)
+        self.kind = kind
+        self.timevar = [0.0]
+        self.burst_done = True
+        self.kern = K.Kernel(sim)
+        self.kern.permute_ready = False
+        self.kern.idle = self._poller_would_block
+        self.r = R.make_reactor(kind, self.kern, lambda: self.timevar[0])
+        self.sleep_plan = None
+        self.slept = 0
+        real_ruc = self.r.runUntilCurrent
+
+        def run_until_current():
+            # every real runUntilCurrent() is one "iteration" of the timer model
+            m = self.m
+            m.begin_pass()
+            sim.event("pass", "now=%r" % m.now)
+            ran0 = self.counts["ran"]
+            with sim.guard("iteration-raised", kind):
+                real_ruc()
+            self.reraise()
+            self.chk(m.end_pass(), "iteration")
+            if self.counts["ran"] > ran0:
+                self.counts["passes_with_runs"] += 1
+
+        self.r.runUntilCurrent = run_until_current
+        # The asyncio reactor's callLater() calls self.timeout(), which moves staged calls into the heap even while
+        # runUntilCurrent() is executing; with a clock that does not move during an iteration a callLater(0) issued from
+        # inside a running call then runs in the SAME iteration (known finding C08 not-in-birth-iteration:in-call@asyncio).
+        # In most asyncio runs calls made from inside a running call get a delay > 0 so the other clauses run full length.
+        self.avoid_inner_zero = kind == "asyncio" and sim.draw_bool(0.7, "avoid_inner_zero_delay")
+
+    def chk(self, problems, where):
+        TimerScenario.chk(self, problems, "%s@%s" % (where, self.kind))
+
+    def op_call_later(self, where, delay=None):
+        if delay is None and where == "in-call" and self.avoid_inner_zero:
+            delay = self.draw_delay("delay") or EIGHTH
+        return TimerScenario.op_call_later(self, where, delay)
+
+    def close(self):
+        R.teardown(self.r)
+
+    def _poller_would_block(self, timeout, scan):
+        """The reactor's poller found nothing ready and wants to sleep `timeout` seconds."""
+        sim, m = self.sim, self.m
+        bound = m.sleep_bound()
+        sim.event("sleep-request", timeout, "bound=%r" % (bound,))
+        sim.probe("real_poller_sleep")
+        if bound is not None:
+            # asyncio computes when - time() on floats that are exact here; allow its 1 ns clock resolution
+            sim.check("timeout-bound", timeout is not None and -1e-6 <= timeout <= bound + 1e-6, "real-sleep:" + self.kind,
+                      lambda: "poller asked to sleep %r s but the earliest pending call is due in %r s (now=%r)" % (timeout, bound, m.now))
+        plan = self.sleep_plan
+        self.sleep_plan = None
+        if timeout is None:
+            dt = 0.0 if plan is None else plan[1]
+        elif plan is None or plan[0] == "exact":
+            dt = timeout
+            sim.probe("slept_exactly_timeout")
+        elif plan[0] == "early":
+            dt = min(timeout, plan[1])
+            sim.fault("early_wakeup") if dt < timeout else None
+        else:
+            dt = timeout + plan[1]
+            sim.fault("oversleep")
+        # float timeouts are differences of multiples of 1/8, hence exact; pollreactor rounds to whole ms, also exact here
+        self.timevar[0] += dt
+        m.move_clock(dt)
+        sim.sim_time += dt
+        self.slept += 1
+
+    def _one_pass(self):
+        r = self.r
+        if self.kind == "asyncio":
+            with self.sim.guard("iteration-raised", self.kind):
+                r._verif_loop._run_once()
+        else:
+            r.runUntilCurrent()
+            t2 = r.timeout()
+            with self.sim.guard("iteration-raised", self.kind):
+                r.doIteration(t2)
+
+    def op_iterate(self):
+        sim = self.sim
+        kind = sim.draw_weighted([("exact", 5), ("early", 3), ("oversleep", 1), ("far", 1)], "sleep-kind")
+        if kind == "early":
+            self.sleep_plan = ("early", sim.draw_int(0, 16, "dt") * EIGHTH)
+        elif kind == "oversleep":
+            self.sleep_plan = ("over", sim.draw_int(1, 8, "dt") * EIGHTH)
+        elif kind == "far":
+            self.sleep_plan = ("over", 16.0)
+            sim.fault("clock_jump")
+        else:
+            self.sleep_plan = ("exact", 0.0)
+        self._one_pass()
+        self.reraise()
+        if sim.draw_bool(0.5, "timeout-after"):
+            self.check_timeout("after-iteration")
+
+    def iterate(self, dt):
+        # used by the drain: move the clock, then run main-loop passes until nothing is due
+        self.timevar[0] += dt
+        self.m.move_clock(dt)
+        self.sim.sim_time += dt
+        for _ in range(6):
+            self.sleep_plan = ("early", 0.0)
+            self._one_pass()
+            self.reraise()
+
+
 def run(sim):
-    Scenario(sim).main()
+    family = sim.draw_weighted([("base", 6), ("real", 4)], "family")
+    if family == "base":
+        Scenario(sim).main()
+        return
+    kind = sim.draw_choice(list(R.KINDS), "reactor")
+    sc = RealLoopScenario(sim, kind)
+    try:
+        sc.main()
+        sim.config["family"] = "real-main-loop:" + kind
+    finally:
+        sc.close()
+
 
 
 MUTANTS = [
